@@ -21,7 +21,9 @@ EXTENDS Naturals, Sequences, FiniteSets, TLC
 CONSTANT Dev
 AsImplemented == {"HardStateSavedOnlyOnDrop", "Prev0ResetsFollowerLog", "GappedAppendRequest",
                   "VoteResetOnAnyStepDown", "EmptyAEAckReportsWholeLog", "FollowerCommitUsesWholeLog",
-                  "SingleNodeFromInitialConfig", "BatchPromoteAnySize", "MembershipNotReplayedOnRestart"}
+                  "SingleNodeFromInitialConfig", "BatchPromoteAnySize", "MembershipNotReplayedOnRestart",
+                  \* read path (interpreted by DEClient / Lease)
+                  "ReadServedOnApplyWithoutConfirmation", "AnyAckConfirmsReads", "VotersIgnoreRecentLeader"}
 
 Max(a, b) == IF a > b THEN a ELSE b
 Min(a, b) == IF a < b THEN a ELSE b
@@ -70,7 +72,11 @@ LastTermStart(log) ==
        IN log[CHOOSE m \in S : \A o \in S : m <= o].i
 
 (* is_target_log_more_recent(my, target): target is at least as up to date *)
-AtLeastAsRecent(myI, myT, tI, tT) == tT > myT \/ (tT = myT /\ tI >= myI)
+\* (model mutants: M_LogCheckIndexOnly compares the index whatever the terms, M_LogCheckTermOnly ignores the index)
+AtLeastAsRecent(myI, myT, tI, tT) ==
+  IF "M_LogCheckIndexOnly" \in Dev THEN tT > myT \/ tI >= myI
+  ELSE IF "M_LogCheckTermOnly" \in Dev THEN tT >= myT
+  ELSE tT > myT \/ (tT = myT /\ tI >= myI)
 IsMajority(num, total) == num > (total \div 2)
 
 (***************************************************************************)
